@@ -80,7 +80,7 @@ func (x *lncExpect) exchange(c, sc *lncrun.Conn, sizes ...int) bool {
 	return x.check("bytes written arrive", ok)
 }
 
-func c11Scenarios() []lncScen {
+func c11BaseScenarios() []lncScen {
 	pairReconnect := func(s *lncrun.Session, x *lncExpect) {
 		s.Serve()
 		c, sc := x.connect(1)
@@ -111,6 +111,10 @@ func c11Scenarios() []lncScen {
 		// version 1 is negotiated, no keys are kept, every reconnect pairs
 		// again at the passphrase rendezvous
 		{"older-server-reconnect", lncrun.Options{SrvV1: true}, pairReconnect},
+		// the browser / WASM path: the clients use the websocketTransport
+		// through the REST/websocket front door of the relay
+		{"ws-pair-reconnect", lncrun.Options{Websocket: true}, pairReconnect},
+		{"ws-prepaired-reconnect", lncrun.Options{Websocket: true, PrePaired: true}, pairReconnect},
 		{"corrupted-handshake-then-retry", lncrun.Options{PrePaired: true}, func(s *lncrun.Session, x *lncExpect) {
 			// the relay corrupts the start of act two of the first handshake
 			// of a reconnect: the client aborts in the middle of the act
@@ -396,6 +400,21 @@ func c11Scenarios() []lncScen {
 }
 
 // TestC11Sessions runs the scripted sessions in parallel, in real time.
+// c11Scenarios: the base scenarios, and some of them again with the clients on
+// the websocket transport.
+func c11Scenarios() []lncScen {
+	out := c11BaseScenarios()
+	for _, sc := range out {
+		switch sc.name {
+		case "second-client", "dial-while-open-after-peer-close", "relay-restart", "relay-failure":
+			o := sc.opts
+			o.Websocket = true
+			out = append(out, lncScen{"ws-" + sc.name, o, sc.run})
+		}
+	}
+	return out
+}
+
 func TestC11Sessions(t *testing.T) {
 	dir := outDir(t)
 	ts := newTraceSet(dir, "c11")
@@ -439,7 +458,8 @@ func TestC11Sessions(t *testing.T) {
 					"prepaired": b2i(sc.opts.PrePaired), "v1": b2i(sc.opts.V1 || sc.opts.SrvV1)}}, s.Rec.Events()...)
 				link := append([]trace.Event{{"ev": "reset", "op": "reset", "scen": sc.name, "rep": rep}},
 					s.LinkEvents()...)
-				stat := append([]trace.Event{{"ev": "reset", "scen": sc.name, "rep": rep}}, s.Stat.Events()...)
+				stat := append([]trace.Event{{"ev": "reset", "scen": sc.name, "rep": rep,
+					"ws": b2i(sc.opts.Websocket)}}, s.Stat.Events()...)
 				mu.Lock()
 				outs = append(outs, out{ev, map[string]any{"scen": sc.name, "rep": rep}, link, stat})
 				mu.Unlock()
